@@ -534,6 +534,12 @@ where
                 Ok(())
             }
             EVENT_DISCONNECTED => {
+                // Before it is safe to destroy the event, we need to synchronize with whatever
+                // the receiver did before it marked the event as disconnected (e.g. it may have
+                // removed its waker). Our swap above was `Relaxed`, so we need a fence here, the
+                // same way `set()` does when it finds the event disconnected.
+                atomic::fence(atomic::Ordering::Acquire);
+
                 // We are the last endpoint remaining, so we will clean up.
                 Err(Disconnected)
             }
